@@ -100,7 +100,11 @@ PROPS["C13"] = {
     "assumptions": ["inputs are restricted to what producers can emit: non-nil messages with arbitrary (also nil) fields",
                     "the 30 s cleanup ticker of the Run loop is not awaited; cleanup is exercised by direct calls"],
     "units": [U("TestVerif_C13_Direct", PROC, R(3000), R(80000, shards=16, timeout=1500)),
-              U("TestVerif_C13_RunLoop", PROC, R(300, shrinktime="20s"), R(12000, shards=16, timeout=1500, shrinktime="30s"), wallclock_fps=["C13/run-loop-stalled"])],
+              U("TestVerif_C13_RunLoop", PROC, R(300, shrinktime="20s"), R(12000, shards=16, timeout=1500, shrinktime="30s"), wallclock_fps=["C13/run-loop-stalled"]),
+              # the loop's own cleanup ticker firing while observations stream in, under the race detector: the aggregation
+              # state is touched by the loop's goroutine only
+              U("TestVerif_C13_RunLoopTicks", PROC, R(40, shrinktime="10s"), R(1500, shards=16, timeout=1500, shrinktime="20s"), race=True, wallclock_fps=["C13/run-loop-stalled"],
+                replay_tries=2, replay_repeat=3)],
 }
 
 PROPS["C14"] = {
@@ -238,6 +242,14 @@ PROPS["C17"]["units"].append(U("TestVerif_C14_Schedule", PROC, R(1500), R(30000,
 # C06 is anchored in observation.go as well (where the node applies the verification to gossip): the processor units
 # of C01 and C03 run under C06 too, with smaller budgets
 PROPS["C06"]["units"].append(U("TestVerif_C01_Safety", PROC, R(800), R(20000, shards=16, timeout=1500)))
+# C03: a signature of a non-member must not count towards completing a VAA either (the signatures kept per digest
+# outlive guardian-set changes): the C01 safety histories, whose every published VAA is verified against the set it
+# names, run under C03 too
+PROPS["C03"]["units"].append(U("TestVerif_C01_Safety", PROC, R(1500), R(20000, shards=16, timeout=1500)))
+# C07: the threshold the node applies is the one of the set the VAA names, also when the loop learns of a new set in
+# the middle of an aggregation, and also for VAAs accepted from peers: the Run-loop safety unit and C01's histories
+PROPS["C07"]["units"].append(U("TestVerif_C01_RunLoop", PROC, R(300, shards=2), R(6000, shards=16, timeout=1500)))
+PROPS["C07"]["units"].append(U("TestVerif_C01_Safety", PROC, R(1500), R(20000, shards=16, timeout=1500)))
 PROPS["C06"]["units"].append(U("TestVerif_C03_Observations", PROC, R(800), R(20000, shards=16, timeout=1500)))
 PROPS["C19"]["units"].append(U("TestVerif_C19_DedupInterleavings", "./deduplicator", R(800, shards=2), R(30000, shards=16, timeout=1500), module=EX, race=True, replay_tries=2, replay_repeat=3))
 PROPS["C19"]["units"].append(U("TestVerif_C06_ExplorerVerify", "./processor", R(800), R(20000, shards=16, timeout=1500), module=EX))
